@@ -10,6 +10,6 @@ ASSUMPTIONS = gen_C01.ASSUMPTIONS + [
 
 COMPONENTS = [
     Component(101, "managers", gen_C01.impl, gen_C01.gen, chk=702, nontrivial=gen_C01.nontrivial,
-              classify=gen_C01.classify, shrink=gen_C01.shrink),
+              classify=gen_C01.classify, shrink=gen_C01.shrink, timeout=6),
 ]
 COMPONENTS[0].split = gen_C01.split
